@@ -31,7 +31,7 @@ plotgen.PAYLOADS["slice3d"] = _payload_slice3d
 
 @st.composite
 def slice_specs(draw, tier="quick", min_levels=1, max_cells=4000):
-    spec = draw(plotgen.plot_specs(ndims=3, min_levels=min_levels, max_levels=3, max_cells=max_cells, fields=list(FIELDS),
+    spec = draw(plotgen.plot_specs(thin=True, ndims=3, min_levels=min_levels, max_levels=3, max_cells=max_cells, fields=list(FIELDS),
                                    payload_kinds=("coded",)))
     m = spec["mesh"]
     m["nb0"] = [max(n, 2) if m["bf"] * n < 4 else n for n in m["nb0"]]       # >= 4 cells per direction
